@@ -2,7 +2,7 @@
 from collections import Counter
 
 from .. import hooks
-from ..gen import canon, mk_event, rand_grid, rand_nonoverlapping
+from ..gen import big_n, canon, mk_event, rand_grid, rand_nonoverlapping
 from ..model import allen, norm, pairwise_disjoint, subtract, union
 from . import _tx
 from ._tx import exc_viol, is_event_list, iv, snap, tmod, unmodified
@@ -122,7 +122,9 @@ def _specs(rng, ivs, base, unit, idbase):
 def gen_case(rng, ctx):
     base, unit = rand_grid(rng)
     span = rng.choice([6, 10, 16, 30])
-    na, nb = rng.randrange(0, 9), rng.randrange(0, 9)
+    na, nb = big_n(rng, rng.randrange(0, 9), sizes=(120, 257)), big_n(rng, rng.randrange(0, 9), sizes=(120, 257))
+    if max(na, nb) > 50:
+        span = 3 * max(na, nb)
     a = rand_nonoverlapping(rng, na, span)
     b = rand_nonoverlapping(rng, nb, span)
     r = rng.random()
